@@ -364,6 +364,27 @@ func hasValidatedNestedCollection(d *m.Design) bool {
 	return found
 }
 
+// StripAliasMappingBounds removes the validations written in the HTTP mapping
+// of attributes whose type is an alias user type and reports how many it
+// removed (C14 steers away from them while the OpenAPI finding is open).
+func StripAliasMappingBounds(d *m.Design) int {
+	n := 0
+	for _, s := range d.Services {
+		for _, meth := range s.Methods {
+			if meth.Payload == nil {
+				continue
+			}
+			for _, f := range d.ObjectFields(meth.Payload) {
+				if f.Attr.VAtMapping && f.Attr.Type.Kind == m.User {
+					f.Attr.V, f.Attr.VAtMapping = nil, false
+					n++
+				}
+			}
+		}
+	}
+	return n
+}
+
 // hasBytesParamWithLength: a Bytes attribute with a length validation carried
 // in a path segment, query parameter or header.
 func hasBytesParamWithLength(d *m.Design) bool {
